@@ -1,18 +1,23 @@
 #!/bin/sh
 # Runs the quick check of every seeded change's property against a scratch worktree of /repo with the change applied.
-# Writes seeded/RESULTS.txt.  /repo itself is not touched; evidence/replays go to a scratch directory.
-HERE="$(cd "$(dirname "$0")/.." && pwd)"; WT=/tmp/wt/seedrun; OUT="$HERE/seeded/RESULTS.txt"
-git -C /repo worktree remove --force "$WT" 2>/dev/null; git -C /repo worktree add -q --detach "$WT" HEAD || exit 2
-export VERIF_MAX_REPLAYS=25 VERIF_REPO="$WT" VERIF_EVIDENCE_DIR=/tmp/seed-evidence VERIF_REPLAY_DIR=/tmp/seed-replays
-: > "$OUT.new"
-for d in "$HERE"/seeded/${SEED_GLOB:-C*-[mnp][0-9]*}; do
-  id=$(basename "$d"); prop=$(echo "$id" | cut -d- -f1)
-  [ -n "$1" ] && [ "$prop" != "$1" ] && continue
-  (cd "$WT" && git checkout -q -- . && git apply "$d/patch.diff") || { echo "$id patch-does-not-apply" >> "$OUT.new"; continue; }
-  (cd "$HERE" && ./check "$prop" --tier quick > "/tmp/seedall-$id.log" 2>&1); rc=$?
-  v=$(grep -c '^VIOLATION' "/tmp/seedall-$id.log")
-  first=$(grep '^VIOLATION' "/tmp/seedall-$id.log" | head -1 | sed 's/.*obligation=\([^ ]*\) facet=\([^ ]*\).*/\1 :: \2/')
-  echo "$id exit=$rc violations=$v first=[$first]" >> "$OUT.new"
-done
-(cd "$WT" && git checkout -q -- .); git -C /repo worktree remove --force "$WT"
-mv "$OUT.new" "$OUT"; cat "$OUT"
+# Writes seeded/RESULTS.txt.  /repo itself is not touched; evidence/replays go to scratch directories.
+# Usage: tools/seed_all.sh [lanes]   (default 3 lanes, each with its own worktree and a share of the cores)
+# SEED_GLOB selects the seeds (default: all three rounds).
+HERE="$(cd "$(dirname "$0")/.." && pwd)"; LANES="${1:-3}"; OUT="$HERE/seeded/RESULTS.txt"
+ls -d "$HERE"/seeded/${SEED_GLOB:-C*-[mnp][0-9]*} > /tmp/seedall.list
+lane() {
+  L="$1"; WT="/tmp/wt/seedrun$L"
+  git -C /repo worktree remove --force "$WT" 2>/dev/null; git -C /repo worktree add -q --detach "$WT" HEAD || exit 2
+  : > "/tmp/seedall.out$L"
+  awk -v l="$L" -v n="$LANES" 'NR % n == l % n' /tmp/seedall.list | while read d; do
+    id=$(basename "$d"); prop=$(echo "$id" | cut -d- -f1)
+    (cd "$WT" && git checkout -q -- . && git apply "$d/patch.diff") || { echo "$id patch-does-not-apply" >> "/tmp/seedall.out$L"; continue; }
+    (cd "$HERE" && VERIF_MAX_REPLAYS=25 VERIF_JOBS=6 VERIF_REPO="$WT" VERIF_EVIDENCE_DIR="/tmp/seed-evidence$L" VERIF_REPLAY_DIR="/tmp/seed-replays$L" ./check "$prop" --tier quick > "/tmp/seedall-$id.log" 2>&1); rc=$?
+    v=$(grep -c '^VIOLATION' "/tmp/seedall-$id.log")
+    first=$(grep '^VIOLATION' "/tmp/seedall-$id.log" | head -1 | sed 's/.*obligation=\([^ ]*\) facet=\([^ ]*\).*/\1 :: \2/')
+    echo "$id exit=$rc violations=$v first=[$first]" >> "/tmp/seedall.out$L"
+  done
+  (cd "$WT" && git checkout -q -- .); git -C /repo worktree remove --force "$WT"
+}
+i=1; while [ "$i" -le "$LANES" ]; do lane "$i" & i=$((i+1)); done; wait
+cat /tmp/seedall.out* | sort > "$OUT"; cat "$OUT"
